@@ -23,7 +23,7 @@ RUNS = {
     "C06": (768, 12288),
     "C08": (1024, 16384),
 }
-WALL_CAP = {"quick": 420, "thorough": 3600}
+WALL_CAP = {"quick": 1200, "thorough": 7200}
 TECHNIQUE = "deterministic simulation: seeded schedule/fault search vs reference model"
 
 
